@@ -18,7 +18,7 @@ U(d) == IF d <= 1 THEN L0 ELSE Grow(U(d - 1), L0, Width, Kinds, DCs)
 Inner == U(MaxDepth - 1)
 
 VARIABLE v
-Init == v \in Inner
+Init == v \in Inner \cup (IF MaxDepth = 2 THEN Rootless(L0, TopKinds) ELSE {})
 Next == Depth(v) < MaxDepth /\ v' \in Expand(v, Inner, Width, RootSeqWidth, TopKinds, TopDCs)
 Spec == Init /\ [][Next]_v
 
